@@ -302,6 +302,14 @@ def tie_C02(ctx):
 def tie_C03(ctx):
     rng = ctx.rng
     cases = []
+    # seeds whose state right after initialisation contains a numeric coincidence (two equal neighbouring words, a zero word,
+    # an all-ones word, equal words 128 apart) — found once by tools/gen_isaac_coincidence.py (each event ~2^-24 per seed)
+    cpath = os.path.join(VERIF, "corpus", "isaac_state_coincidence.json")
+    if os.path.exists(cpath):
+        for kind, lst in sorted(json.load(open(cpath)).items()):
+            for e in (lst if ctx.thorough else lst[:3]):
+                cases.append([f"new 0 IsaacRng seed {e['seed']}", "u32 0", f"fill 0 {4 * 600}", "u64 0"])
+                ctx.dist[f"IsaacRng:init-state-{kind}"] += 1
     for g, wbytes in (("IsaacRng", 4), ("Isaac64Rng", 8)):
         nat = native(g)
         seeds = [("zero", bytes(32)), ("ones", b"\xff" * 32)]
